@@ -35,7 +35,7 @@ AccuracyOK(e) ==
       /\ (e.result = "Unstable" => e.tolc = "some")
       /\ (e.result = "Ok" => (e.acc_det /\ e.acc_inv /\ e.acc_qtq /\ e.acc_qtiq /\ e.tri /\ e.posdiag /\ e.det = "pos"))
 \* the generic code behaves identically for the tracking scalar, and never narrows (C19)
-GenericOK(e) == e.tr_result = e.result /\ e.narrow = 0
+GenericOK(e) == e.tr_result = e.result /\ e.narrow = 0 /\ e.dbg_same   \* print_debug_info does not change the result (C17)
 
 Init == l = 1
 Dec == /\ l <= Len(Rec) /\ Rec[l].ev = "Dec"
